@@ -2,14 +2,16 @@
   C16 — ref backends obey one contract; the files backend matches git's own view; check_ref_format
   agrees with git-check-ref-format on every byte string.
 
-  Only property theorems, non-vacuity examples and negation witnesses live here; helper lemmas are
-  in Lemmas/{RefFormat,Refs,PackedRefs}.lean.  Models: Model/{RefFormat,Refs,PackedRefs}.lean; the
+  Only property theorems, non-vacuity examples and (regression) witnesses live here; helper lemmas are
+  in Lemmas/{RefFormat,Refs,PackedRefs}.lean.  Models: Model/{RefFormat,Refs,PackedRefs}.lean (the code
+  after the C16 fix series) and Model/RefsOld.lean (the code before it, for the regression witnesses); the
   sequence of tests of `check_ref_format`, BAD_REF_CHARS, SYMREF, the `_check_refname` constants, the
   symref depth limit and the packed-refs markers come from Gen/Refs.lean, which the translator
   regenerates from /repo on every run.
 -/
 import DulwichModel.Lemmas.Refs
 import DulwichModel.Lemmas.PackedRefs
+import DulwichModel.Model.RefsOld
 
 namespace Dulwich.Props.C16
 open Dulwich Dulwich.RefFormat Dulwich.Refs Dulwich.Gen.Refs
@@ -141,26 +143,24 @@ theorem check_refname_iff (name : Bytes) (hds : hasInfix doubleSlash name = fals
 /-! ## 2. the files backend (loose + packed, loose precedence) refines the map `Name → Option Val`
 
 The abstraction of a Disk state is `Disk.readRef` (the base-class `read_ref`: loose value, else packed
-value).  Each theorem says: under the stated, decidable hypotheses on the state the operation starts
-from, the operation returns what the two-line spec returns and commutes with the abstraction. -/
+value).  Each theorem says: when no stored ref — loose or packed — collides with the ref the operation
+writes (`Disk.NoCollision`, decidable), the operation returns what the two-line spec returns and commutes
+with the abstraction.  Nothing is assumed about directories, symref loops or what `pack_refs` packs any
+more (model of the code after the C16 fix series; the old side conditions are documented by the
+`…_regression` witnesses of section 10). -/
 
 theorem disk_set_if_equals_refines (d : Disk) (hwf : d.WF) (name : Name) (old : Option Val) (new : Val)
     (hname : checkRefname name = true) (hval : validRefValue new = true)
     (hreal : checkRefname (realname d.readRef name) = true)
-    (hclear : d.PathClear (realname d.readRef name)) :
+    (hclear : d.NoCollision (realname d.readRef name)) :
     (d.setIfEquals name old new).1 = .ok (Spec.setIfEquals d.readRef name old new).1 ∧
     (d.setIfEquals name old new).2.readRef = (Spec.setIfEquals d.readRef name old new).2 := by
-  obtain ⟨hanc, hdir⟩ := hclear
   have hnew : new ≠ [] := validRefValue_ne_nil hval
   unfold Disk.setIfEquals Spec.setIfEquals
   simp only [hname, hval, Bool.not_true, Bool.false_eq_true, if_false]
   generalize hr : realname d.readRef name = r at *
-  have hprobe : (ancestors r).any (fun p => (d.packed.get p).isSome) = false := by
-    rw [List.any_eq_false]
-    intro p hp
-    simp [(hanc p hp).2]
-  simp only [hprobe, Bool.false_eq_true, if_false]
-  rw [Disk.lockMkdirs_ok d r (fun p hp => (hanc p hp).1)]
+  simp only [Disk.packedConflict_false d r hclear, Bool.false_eq_true, if_false]
+  rw [Disk.lockMkdirs_ok d r (fun p hp => (hclear.1 p hp).1)]
   simp only
   have hrl : ({ d with dirs := Disk.addDirs d.dirs (ancestors r) } : Disk).origRef r = d.origRef r := rfl
   rw [hrl, ← Disk.readRef_eq d hwf r]
@@ -176,20 +176,15 @@ theorem disk_set_if_equals_refines (d : Disk) (hwf : d.WF) (name : Name) (old : 
       · subst hn; simp [this, Disk.readRef_dirs]
       · simp [hn, Disk.readRef_dirs]
     · simp only [hsame, Bool.false_eq_true, if_false]
-      have hnd : r ∉ Disk.addDirs d.dirs (ancestors r) := by
-        rw [mem_addDirs]
-        rintro (h | h)
-        · exact hdir h
-        · exact not_mem_ancestors_self r h
-      simp only [Disk.commitFile, hnd, if_false]
-      refine ⟨trivial, ?_⟩
-      exact Disk.readRef_commit _ hwf r new hreal hnew
+      obtain ⟨d2, hc, hrr⟩ := Disk.write_ok d hwf r new hreal hnew hclear.2.1 (Disk.addDirs d.dirs (ancestors r))
+      simp only [hc]
+      exact ⟨trivial, hrr⟩
   · simp only [hcas, Bool.not_false, if_true, Bool.false_eq_true, if_false]
     exact ⟨trivial, rfl⟩
 
 theorem disk_remove_if_equals_refines (d : Disk) (hwf : d.WF) (name : Name) (old : Option Val)
     (hname : checkRefname name = true)
-    (hanc : ∀ p ∈ ancestors name, d.files.get p = none) (hdir : name ∉ d.dirs) :
+    (hanc : ∀ p ∈ ancestors name, d.files.get p = none) :
     (d.removeIfEquals name old).1 = .ok (Spec.removeIfEquals d.readRef name old).1 ∧
     (d.removeIfEquals name old).2.readRef = (Spec.removeIfEquals d.readRef name old).2 := by
   unfold Disk.removeIfEquals Spec.removeIfEquals
@@ -200,38 +195,33 @@ theorem disk_remove_if_equals_refines (d : Disk) (hwf : d.WF) (name : Name) (old
   rw [hrl, ← Disk.readRef_eq d hwf name]
   by_cases hcas : casOk (d.readRef name) old
   · simp only [hcas, Bool.not_true, Bool.false_eq_true, if_false, if_true]
-    have hnd : name ∉ Disk.addDirs d.dirs (ancestors name) := by
-      rw [mem_addDirs]
-      rintro (h | h)
-      · exact hdir h
-      · exact not_mem_ancestors_self name h
-    simp only [hnd, if_false]
     refine ⟨trivial, ?_⟩
     rw [Disk.cleanupParents_readRef]
-    exact Disk.readRef_remove { d with dirs := Disk.addDirs d.dirs (ancestors name) } name
+    have hrm := Disk.readRef_remove { d with dirs := Disk.addDirs d.dirs (ancestors name) } name
+    split
+    · rw [Disk.pruneEmpty_readRef]; exact hrm
+    · exact hrm
   · simp only [hcas, Bool.not_false, if_true, Bool.false_eq_true, if_false]
     exact ⟨trivial, rfl⟩
 
 theorem disk_set_symbolic_ref_refines (d : Disk) (hwf : d.WF) (name other : Name)
     (hname : checkRefname name = true) (hother : checkRefname other = true)
-    (hparent : d.lockNoMkdirs name = .ok ())            -- the parent directory exists (as coded: not created)
-    (hnoloop : ∃ r, follow d.readRef name = .ok r)       -- as coded: the old value is followed for the reflog
-    (hdir : name ∉ d.dirs) :
+    (hclear : d.NoCollision name) :
     (d.setSymbolicRef name other).1 = .ok () ∧
     (d.setSymbolicRef name other).2.readRef = Spec.setSymbolicRef d.readRef name other := by
-  obtain ⟨r, hr⟩ := hnoloop
   unfold Disk.setSymbolicRef Spec.setSymbolicRef
-  simp only [hname, hother, Bool.not_true, Bool.false_eq_true, if_false, hparent, hr, Disk.commitFile, hdir]
-  refine ⟨trivial, ?_⟩
-  refine Disk.readRef_commit d hwf name _ hname ?_
-  simp [symref]
+  simp only [hname, hother, Bool.not_true, Bool.false_eq_true, if_false, Disk.packedConflict_false d name hclear]
+  rw [Disk.lockMkdirs_ok d name (fun p hp => (hclear.1 p hp).1)]
+  simp only
+  obtain ⟨d2, hc, hrr⟩ := Disk.write_ok d hwf name (symref ++ other) hname (by simp [symref]) hclear.2.1
+    (Disk.addDirs d.dirs (ancestors name))
+  simp only [hc]
+  exact ⟨trivial, hrr⟩
 
 theorem disk_add_if_new_refines (d : Disk) (hwf : d.WF) (name : Name) (v : Val)
     (hval : validRefValue v = true)
     (hreal : ∀ names c, follow d.readRef name = .ok (names, c) →
-      checkRefname ((names.getLast?).getD name) = true ∧ d.PathClear ((names.getLast?).getD name))
-    -- as coded: in the creating branch the packed probe uses `name`, not the resolved name
-    (hpk : ∀ names, follow d.readRef name = .ok (names, none) → d.packed.get name = none) :
+      checkRefname ((names.getLast?).getD name) = true ∧ d.NoCollision ((names.getLast?).getD name)) :
     (d.addIfNew name v).1 = (Spec.addIfNew d.readRef name v).1 ∧
     (d.addIfNew name v).2.readRef = (Spec.addIfNew d.readRef name v).2 := by
   have hv : v ≠ [] := validRefValue_ne_nil hval
@@ -246,18 +236,18 @@ theorem disk_add_if_new_refines (d : Disk) (hwf : d.WF) (name : Name) (v : Val)
     | some c => simp
     | none =>
       simp only [Option.isSome_none, Bool.false_eq_true, if_false]
-      obtain ⟨hck, ⟨hanc, hdir⟩⟩ := hreal names none hf
+      obtain ⟨hck, hclear⟩ := hreal names none hf
       obtain ⟨r, hlast, hread⟩ := followAux_none d.readRef _ _ _ _ hf
-      simp only [hlast, Option.getD_some] at hck hanc hdir ⊢
-      simp only [hck, Bool.not_true, Bool.false_eq_true, if_false]
-      rw [Disk.lockMkdirs_ok d r (fun p hp => (hanc p hp).1)]
+      simp only [hlast, Option.getD_some] at hck hclear ⊢
+      simp only [hck, Bool.not_true, Bool.false_eq_true, if_false, Disk.packedConflict_false d r hclear]
+      rw [Disk.lockMkdirs_ok d r (fun p hp => (hclear.1 p hp).1)]
       simp only
-      -- the chain ended at `r` without a value: `r` reads as absent, so there is no loose file `r`
+      -- the chain ended at `r` without a value: neither a loose file nor a packed entry `r`
       have hnofile : d.files.get r = none := by
         cases hg : d.files.get r with
         | none => rfl
         | some c =>
-          have hc : c ≠ [] := hwf r c hg
+          have hc : c ≠ [] := hwf.1 r c hg
           have : d.readRef r = some c := by
             unfold Disk.readRef Disk.readLoose
             simp only [hck, if_true, hg]
@@ -265,39 +255,32 @@ theorem disk_add_if_new_refines (d : Disk) (hwf : d.WF) (name : Name) (v : Val)
           rcases hread with h | h
           · rw [this] at h; cases h
           · rw [this] at h; injection h with h; exact absurd h hc
-      have hnd : r ∉ Disk.addDirs d.dirs (ancestors r) := by
-        rw [mem_addDirs]
-        rintro (h | h)
-        · exact hdir h
-        · exact not_mem_ancestors_self r h
-      simp only [Disk.pathExists, Disk.isFile, hnofile, Option.isSome_none, hnd, decide_false, Bool.or_self,
-        hpk names hf, Bool.false_eq_true, if_false, Disk.commitFile]
-      exact ⟨trivial, Disk.readRef_commit _ hwf r v hck hv⟩
-/-- `pack_refs` is a stuttering step — provided no ref it packs is a symbolic ref (each packed value
-is the ref's own raw value) and no symref loop makes the selection raise. -/
-theorem pack_refs_stutter_partial (d : Disk) (all : Bool) (l : List (Name × Val))
-    (hsel : Disk.packSelect d all d.allKeys = .ok l)
-    (hdirect : ∀ p ∈ l, d.readRef p.1 = some p.2) :
+      have hnopacked : d.packed.get r = none := by
+        cases hg : d.packed.get r with
+        | none => rfl
+        | some c =>
+          have hc : c ≠ [] := hwf.2 r c hg
+          have : d.readRef r = some c := by
+            unfold Disk.readRef Disk.readLoose
+            simp only [hck, if_true, hnofile, hg]; rfl
+          rcases hread with h | h
+          · rw [this] at h; cases h
+          · rw [this] at h; injection h with h; exact absurd h hc
+      have hnd := Disk.not_mem_pruneEmpty { d with dirs := Disk.addDirs d.dirs (ancestors r) } r hclear.2.1
+      obtain ⟨d2, hc, hrr⟩ := Disk.write_ok d hwf r v hck hv hclear.2.1 (Disk.addDirs d.dirs (ancestors r))
+      have hpe : (({ d with dirs := Disk.addDirs d.dirs (ancestors r) } : Disk).pruneEmpty r).pathExists r = false := by
+        simp only [Disk.pathExists, Disk.isFile, hnd, decide_false, Bool.or_false]
+        show (d.files.get r).isSome = false
+        simp [hnofile]
+      simp only [hpe, hnopacked, Option.isSome_none, Bool.or_self, Bool.false_eq_true, if_false, hc]
+      exact ⟨trivial, hrr⟩
+
+/-- `pack_refs` is a stuttering step — unconditionally: it returns normally and no `read_ref` changes -/
+theorem pack_refs_stutter (d : Disk) (all : Bool) :
     (d.packRefs all).1 = .ok () ∧ (d.packRefs all).2.readRef = d.readRef := by
   unfold Disk.packRefs
-  simp only [hsel]
-  exact ⟨trivial, Disk.readRef_addPacked l d hdirect⟩
+  exact ⟨rfl, Disk.readRef_addPacked _ d (fun p hp => (Disk.packSelect_direct d all _ p hp).1)⟩
 
-/-- the same with the hypothesis on the state: no ref the container lists (other than HEAD, which is
-never packed) is a symbolic ref -/
-theorem pack_refs_stutter_no_symrefs (d : Disk) (all : Bool)
-    (hnosym : ∀ k ∈ d.allKeys, k ≠ headRef → d.isSymrefAt k = false) :
-    (d.packRefs all).1 = .ok () ∧ (d.packRefs all).2.readRef = d.readRef := by
-  have h' : ∀ k ∈ d.allKeys, k ≠ headRef → ∀ c, d.readRef k = some c → ¬ symref.isPrefixOf c = true := by
-    intro k hk hne c hc
-    have := hnosym k hk hne
-    simp only [Disk.isSymrefAt, hc] at this
-    simp [this]
-  cases hsel : Disk.packSelect d all d.allKeys with
-  | ok l => exact pack_refs_stutter_partial d all l hsel (Disk.packSelect_direct d all _ l h' hsel)
-  | error e =>
-    obtain ⟨l, hl⟩ := Disk.packSelect_ok d all d.allKeys h'
-    rw [hl] at hsel; cases hsel
 
 /-! ## 3. operation sequences -/
 
@@ -314,29 +297,23 @@ theorem disk_step_refines (d : Disk) (hwf : d.WF) (op : MOp) (hok : d.StepOk op)
   | addIfNew n v =>
     obtain ⟨h1, h2⟩ := hok
     have h2' : ∀ names c, follow d.readRef n = .ok (names, c) →
-        checkRefname ((names.getLast?).getD n) = true ∧ d.PathClear ((names.getLast?).getD n) := by
-      intro names c hf; rw [hf] at h2; exact ⟨h2.1, h2.2.1⟩
-    have h3 : ∀ names, follow d.readRef n = .ok (names, none) → d.packed.get n = none := by
-      intro names hf; rw [hf] at h2; exact h2.2.2 rfl
-    have := disk_add_if_new_refines d hwf n v h1 h2' h3
+        checkRefname ((names.getLast?).getD n) = true ∧ d.NoCollision ((names.getLast?).getD n) := by
+      intro names c hf; rw [hf] at h2; exact h2
+    have := disk_add_if_new_refines d hwf n v h1 h2'
     simp only [Disk.step, Spec.step, this.1, this.2]
     exact ⟨trivial, trivial⟩
   | removeIfEquals n o =>
-    obtain ⟨h1, h2, h3⟩ := hok
-    have := disk_remove_if_equals_refines d hwf n o h1 h2 h3
+    obtain ⟨h1, h2⟩ := hok
+    have := disk_remove_if_equals_refines d hwf n o h1 h2
     simp only [Disk.step, Spec.step, this.1, this.2, Except.map]
     exact ⟨trivial, trivial⟩
   | setSymbolicRef n t =>
-    obtain ⟨h1, h2, h3, h4, h5⟩ := hok
-    have h4' : ∃ r, follow d.readRef n = .ok r := by
-      cases hf : follow d.readRef n with
-      | ok r => exact ⟨r, rfl⟩
-      | error e => rw [hf] at h4; exact absurd h4 id
-    have := disk_set_symbolic_ref_refines d hwf n t h1 h2 h3 h4' h5
+    obtain ⟨h1, h2, h3⟩ := hok
+    have := disk_set_symbolic_ref_refines d hwf n t h1 h2 h3
     simp only [Disk.step, Spec.step, this.1, this.2, Except.map]
     exact ⟨trivial, trivial⟩
   | packRefs all =>
-    have := pack_refs_stutter_no_symrefs d all hok
+    have := pack_refs_stutter d all
     simp only [Disk.step, Spec.step, this.1, this.2, Except.map]
     exact ⟨trivial, trivial⟩
   | reopen => exact ⟨rfl, rfl⟩
@@ -350,14 +327,13 @@ theorem disk_step_WF (d : Disk) (hwf : d.WF) (op : MOp) (hok : d.StepOk op) : (d
   | packRefs all => exact Disk.packRefs_WF d hwf all
   | reopen => exact hwf
 
-/-- **Refinement over operation sequences.**  For every sequence of operations whose every step
-satisfies `StepOk` on the concrete state it starts from, the files backend returns, step by step,
-exactly what the map spec returns, and ends in a state whose abstraction is the spec's final map.
-`_partial`: the full statement would take "a universe of non-colliding names" as its only hypothesis;
-what is proved here carries the per-step side conditions explicitly (`Disk.StepOk`), because the code
-does *not* maintain them by itself — see the `_counterexample`s below (stale empty directories, missing
-parent directories for symrefs, symref loops, packed symrefs). -/
-theorem disk_refines_map_partial : ∀ (ops : List MOp) (d : Disk), d.WF → d.AllOk ops →
+/-- **Refinement over operation sequences, from any well-formed state.**  For every sequence of
+operations whose every step meets no colliding ref (`StepOk` on the concrete state it starts from: valid
+names and values, `NoCollision` for the ref written), the files backend returns, step by step, exactly
+what the map spec returns, and ends in a state whose abstraction is the spec's final map.  (The
+remaining side condition is the one the property itself makes — "names that collide are refused",
+theorems of section 4; for a universe of non-colliding names it disappears: `disk_refines_map`.) -/
+theorem disk_refines_map_guarded : ∀ (ops : List MOp) (d : Disk), d.WF → d.AllOk ops →
     (d.run ops).1 = (Spec.run d.readRef ops).1 ∧ (d.run ops).2.readRef = (Spec.run d.readRef ops).2 := by
   intro ops
   induction ops with
@@ -370,162 +346,172 @@ theorem disk_refines_map_partial : ∀ (ops : List MOp) (d : Disk), d.WF → d.A
     simp only [Disk.run, Spec.run, h1, ← h2, i1, i2]
     exact ⟨trivial, trivial⟩
 
-
-/-! concrete values for the examples and negation witnesses -/
+/-! concrete values for the examples and witnesses -/
 def shaA : Val := b!"aaaaaaaaaaaaaaaaaaaaaaaaaaaaaaaaaaaaaaaa"
 def shaB : Val := b!"bbbbbbbbbbbbbbbbbbbbbbbbbbbbbbbbbbbbbbbb"
-def baseDirs : List Bytes := [b!"refs", b!"refs/heads", b!"refs/tags"]
+def shaC : Val := b!"cccccccccccccccccccccccccccccccccccccccc"
+def emptyDisk : Disk := { files := [], dirs := baseDirs, packed := [], peeled := [] }
 
-/-- HEAD attached to `refs/heads/m`, which exists only in packed-refs -/
+/-- HEAD attached to `refs/heads/m`, which exists only in packed-refs; a symref loop s ↔ t -/
 def exampleDisk : Disk :=
-  { files := [(b!"HEAD", b!"ref: refs/heads/m")], dirs := baseDirs,
-    packed := [(b!"refs/heads/m", shaA)], peeled := [] }
+  { files := [(b!"HEAD", b!"ref: refs/heads/m"), (b!"refs/heads/s", b!"ref: refs/heads/t"),
+              (b!"refs/heads/t", b!"ref: refs/heads/s")],
+    dirs := baseDirs, packed := [(b!"refs/heads/m", shaA)], peeled := [] }
 
-/-- update through HEAD (lands loose on top of the packed value), conditional delete, re-create,
-create in a new directory, re-open, pack everything, symref in an existing directory -/
+/-- update through HEAD (lands loose on top of the packed value), conditional delete, re-create, a symref
+in a directory that does not exist yet, pack everything (symrefs and the loop stay), re-point a name that
+is inside the loop, create through the now dangling `t`, re-open -/
 def exampleOps : List MOp :=
   [.setIfEquals b!"HEAD" (some shaA) shaB, .removeIfEquals b!"refs/heads/m" (some shaB),
-   .addIfNew b!"refs/heads/m" shaA, .setIfEquals b!"refs/remotes/o/m" (some zeroSha) shaB, .reopen,
-   .packRefs true, .setSymbolicRef b!"HEAD" b!"refs/remotes/o/m", .setIfEquals b!"HEAD" none shaA]
+   .addIfNew b!"refs/heads/m" shaA, .setSymbolicRef b!"refs/remotes/o/HEAD" b!"refs/heads/m", .packRefs true,
+   .setSymbolicRef b!"refs/heads/s" b!"refs/heads/x", .addIfNew b!"refs/heads/t" shaB, .reopen,
+   .setIfEquals b!"refs/remotes/o/HEAD" none shaC]
 
 set_option maxRecDepth 8000 in
-/-- non-vacuity: the hypotheses of `disk_refines_map_partial` hold on a sequence that exercises symref
-following, loose-over-packed, packing and directory creation -/
+/-- non-vacuity of `disk_refines_map_guarded` -/
 example : exampleDisk.WF ∧ exampleDisk.AllOk exampleOps := by
-  constructor
+  refine ⟨⟨?_, ?_⟩, by decide⟩
+  · intro k v h
+    simp only [exampleDisk, Map.get] at h
+    repeat (split at h; · injection h with h; subst h; decide)
+    cases h
   · intro k v h
     simp only [exampleDisk, Map.get] at h
     split at h
     · injection h with h; subst h; decide
     · cases h
-  · decide
 
 set_option maxRecDepth 8000 in
 example : (exampleDisk.run exampleOps).1 =
-    [.ok (some true), .ok (some true), .ok (some true), .ok (some true), .ok none, .ok none, .ok none, .ok (some true)] ∧
-    (exampleDisk.run exampleOps).2.readRef b!"refs/remotes/o/m" = some shaA := by decide
+    [.ok (some true), .ok (some true), .ok (some true), .ok none, .ok none, .ok none, .ok (some true), .ok none,
+     .ok (some true)] ∧
+    (exampleDisk.run exampleOps).2.readRef b!"refs/heads/m" = some shaC ∧
+    (exampleDisk.run exampleOps).2.readRef b!"refs/heads/x" = some shaB ∧
+    (exampleDisk.run exampleOps).2.readRef b!"refs/remotes/o/HEAD" = some b!"ref: refs/heads/m" := by decide
+
+set_option maxRecDepth 8000 in
+/-- non-vacuity of `disk_refines_map`: a universe with names at different depths, none on the way to
+another, and a sequence over it with symrefs, a loop, packing and deletes -/
+example :
+    let U : List Name := [b!"HEAD", b!"refs/heads/a", b!"refs/heads/d/e/f", b!"refs/heads/s", b!"refs/tags/v"]
+    let ops : List MOp := [.setIfEquals b!"HEAD" none shaA, .setSymbolicRef b!"HEAD" b!"refs/heads/a",
+      .setIfEquals b!"HEAD" none shaA, .addIfNew b!"refs/tags/v" shaB, .packRefs true,
+      .setSymbolicRef b!"refs/heads/s" b!"refs/heads/s", .packRefs true,
+      .setIfEquals b!"refs/heads/a" (some shaA) shaB, .reopen, .packRefs false,
+      .setSymbolicRef b!"refs/heads/s" b!"refs/heads/d/e/f", .addIfNew b!"refs/heads/s" shaC,
+      .removeIfEquals b!"refs/heads/a" (some shaB)]
+    (∀ n ∈ U, checkRefname n = true) ∧ NonColliding U ∧
+    (∀ op ∈ ops, (∀ n ∈ op.names, n ∈ U) ∧ op.ValuesOk) ∧
+    (emptyDisk.run ops).2.readRef b!"refs/heads/d/e/f" = some shaC ∧
+    (emptyDisk.run ops).2.readRef b!"refs/heads/a" = none ∧
+    (emptyDisk.run ops).2.packed.get b!"refs/tags/v" = some shaB := by
+  refine ⟨by decide, by unfold NonColliding; decide, ?_, by decide, by decide, by decide⟩
+  intro op hop
+  simp only [List.mem_cons, List.not_mem_nil, or_false] at hop
+  rcases hop with rfl | rfl | rfl | rfl | rfl | rfl | rfl | rfl | rfl | rfl | rfl | rfl | rfl <;>
+    exact ⟨by decide, by first | trivial | (show validHexSha _ = true; decide)⟩
 
 
-def emptyDisk : Disk := { files := [], dirs := baseDirs, packed := [], peeled := [] }
+/-! ## 4. conflict refusal: loose or packed, above or below -/
 
-/-! ## 4. conflict refusal as coded, and where it is not refused -/
+/-- every loose file sits in directories that exist (true of any real file system) -/
+def DirsClosed (d : Disk) : Prop := ∀ k ∈ d.files.keys, ∀ p ∈ ancestors k, p ∈ d.dirs
 
-/-- creating `a/b` when `a` exists loose or packed is refused by `set_if_equals` (the packed probe, or
-`makedirs`/the lock file hitting the loose file): an `OSError`, state unchanged apart from nothing -/
-theorem collision_refused_partial (d : Disk) (a r : Name) (old : Option Val) (new : Val)
-    (hname : checkRefname r = true) (hval : validRefValue new = true)
-    (hreal : realname d.readRef r = r) (hanc : a ∈ ancestors r)
-    (hex : (d.packed.get a).isSome = true ∨ (d.files.get a).isSome = true) :
-    d.setIfEquals r old new = (.error .os, d) := by
+/-- some stored ref — loose or packed — is a directory on the way to `r`, or lives below `r` -/
+def Collides (d : Disk) (r : Name) : Prop :=
+  (∃ p ∈ ancestors r, (d.files.get p).isSome = true ∨ (d.packed.get p).isSome = true) ∨
+  (∃ k ∈ d.packed.keys, r ∈ ancestors k) ∨ (∃ k ∈ d.files.keys, r ∈ ancestors k)
+
+/-- the write path shared by the three writers — `_check_packed_conflict`, `makedirs` + lock, prune,
+rename — refuses a colliding name with an `OSError` and changes no ref -/
+theorem write_refused (d : Disk) (hfs : DirsClosed d) (r : Name) (hc : Collides d r) :
+    d.packedConflict r = true ∨
+    (d.packedConflict r = false ∧ d.lockMkdirs r = .error .os) ∨
+    (d.packedConflict r = false ∧ ∃ d1, d.lockMkdirs r = .ok d1 ∧ d1.readRef = d.readRef ∧
+      ∀ v, (d1.pruneEmpty r).commitFile r v = .error .os) := by
+  by_cases hpc : d.packedConflict r = true
+  · exact Or.inl hpc
+  · have hpc' : d.packedConflict r = false := by simpa using hpc
+    unfold Disk.packedConflict at hpc'
+    rw [Bool.or_eq_false_iff, List.any_eq_false, List.any_eq_false] at hpc'
+    by_cases hfa : (ancestors r).any d.isFile = true
+    · exact Or.inr (Or.inl ⟨by simpa using hpc, by simp [Disk.lockMkdirs, hfa]⟩)
+    · refine Or.inr (Or.inr ⟨by simpa using hpc, { d with dirs := Disk.addDirs d.dirs (ancestors r) },
+        by simp [Disk.lockMkdirs, hfa], rfl, ?_⟩)
+      have hfa' : ∀ p ∈ ancestors r, d.isFile p = false := by
+        intro p hp
+        have := List.any_eq_false.mp (by simpa using hfa) p hp
+        simpa using this
+      -- the only collision left is a loose ref below `r`
+      obtain ⟨k, hk, hrk⟩ : ∃ k ∈ d.files.keys, r ∈ ancestors k := by
+        rcases hc with ⟨p, hp, h | h⟩ | ⟨k, hk, hrk⟩ | h
+        · have := hfa' p hp; simp [Disk.isFile, h] at this
+        · have := hpc'.1 p hp; simp [h] at this
+        · have := hpc'.2 k hk; simp [hrk] at this
+        · exact h
+      intro v
+      have hin : r ∈ (({ d with dirs := Disk.addDirs d.dirs (ancestors r) } : Disk).pruneEmpty r).dirs := by
+        unfold Disk.pruneEmpty
+        simp only [List.mem_filter]
+        refine ⟨(mem_addDirs r _ _).mpr (Or.inl (hfs k hk r hrk)), ?_⟩
+        have : d.files.keys.all (fun f => !decide (r ∈ ancestors f)) = false := by
+          rw [List.all_eq_false]; exact ⟨k, hk, by simp [hrk]⟩
+        simp [this]
+      simp only [Disk.commitFile, hin, if_true]
+
+theorem collision_refused_set_symbolic_ref (d : Disk) (hfs : DirsClosed d) (r t : Name)
+    (hr : checkRefname r = true) (ht : checkRefname t = true) (hc : Collides d r) :
+    (d.setSymbolicRef r t).1 = .error .os ∧ (d.setSymbolicRef r t).2.readRef = d.readRef := by
+  unfold Disk.setSymbolicRef
+  simp only [hr, ht, Bool.not_true, Bool.false_eq_true, if_false]
+  rcases write_refused d hfs r hc with h | ⟨h1, h2⟩ | ⟨h1, d1, h2, h3, h4⟩
+  · simp [h]
+  · simp [h1, h2]
+  · simp only [h1, Bool.false_eq_true, if_false, h2, h4]
+    exact ⟨trivial, h3⟩
+
+/-- **Conflict refusal** (full, after the fix series): whenever `set_if_equals` would write the ref `r`
+it resolves to and some stored ref — loose *or packed*, above *or below* — collides with `r`, it raises an
+`OSError` and no ref changes. -/
+theorem collision_refused_set_if_equals (d : Disk) (hwf : d.WF) (hfs : DirsClosed d) (n : Name) (old : Option Val)
+    (new : Val) (hn : checkRefname n = true) (hv : validRefValue new = true)
+    (hc : Collides d (realname d.readRef n))
+    (hcas : casOk (d.readRef (realname d.readRef n)) old = true)
+    (hdiff : d.readRef (realname d.readRef n) ≠ some new) :
+    (d.setIfEquals n old new).1 = .error .os ∧ (d.setIfEquals n old new).2.readRef = d.readRef := by
   unfold Disk.setIfEquals
-  simp only [hname, hval, Bool.not_true, Bool.false_eq_true, if_false, hreal]
-  by_cases hp : (ancestors r).any (fun p => (d.packed.get p).isSome) = true
-  · simp [hp]
-  · simp only [hp, if_false]
-    have hf : (ancestors r).any d.isFile = true := by
-      rw [List.any_eq_true]
-      rcases hex with h | h
-      · exact absurd (List.any_eq_true.mpr ⟨a, hanc, h⟩) hp
-      · exact ⟨a, hanc, h⟩
-    simp [Disk.lockMkdirs, hf]
+  simp only [hn, hv, Bool.not_true, Bool.false_eq_true, if_false]
+  generalize realname d.readRef n = r at *
+  rcases write_refused d hfs r hc with h | ⟨h1, h2⟩ | ⟨h1, d1, h2, h3, h4⟩
+  · simp [h]
+  · simp [h1, h2]
+  · simp only [h1, Bool.false_eq_true, if_false, h2]
+    have ho : d1.origRef r = d.readRef r := by
+      have : d1.WF := Disk.lockMkdirs_WF h2 hwf
+      rw [← Disk.readRef_eq d1 this r, h3]
+    have hne : (d.readRef r == some new) = false := by simpa using hdiff
+    simp only [ho, hcas, Bool.not_true, Bool.false_eq_true, if_false, hne, h4]
+    exact ⟨trivial, h3⟩
 
-/-- … and creating `a` when `a/b` exists *loose* is refused too: `a` is a directory, the final rename
-raises `IsADirectoryError` (the state keeps the directories `makedirs` created, no ref changes) -/
-theorem collision_with_loose_descendant_refused (d : Disk) (hwf : d.WF) (a : Name) (new : Val)
-    (hname : checkRefname a = true) (hval : validRefValue new = true)
-    (hreal : realname d.readRef a = a) (hdir : a ∈ d.dirs)
-    (hclear : ∀ p ∈ ancestors a, d.files.get p = none ∧ d.packed.get p = none)
-    (habsent : d.readRef a = none) :
-    (d.setIfEquals a none new).1 = .error .os ∧ (d.setIfEquals a none new).2.readRef = d.readRef := by
-  unfold Disk.setIfEquals
-  simp only [hname, hval, Bool.not_true, Bool.false_eq_true, if_false, hreal]
-  have hprobe : (ancestors a).any (fun p => (d.packed.get p).isSome) = false := by
-    rw [List.any_eq_false]; intro p hp; simp [(hclear p hp).2]
-  simp only [hprobe, Bool.false_eq_true, if_false]
-  rw [Disk.lockMkdirs_ok d a (fun p hp => (hclear p hp).1)]
-  simp only
-  have hrl : ({ d with dirs := Disk.addDirs d.dirs (ancestors a) } : Disk).origRef a = d.origRef a := rfl
-  rw [hrl, ← Disk.readRef_eq d hwf a, habsent]
-  have hin : a ∈ Disk.addDirs d.dirs (ancestors a) := (mem_addDirs a _ _).mpr (Or.inl hdir)
-  simp [casOk, Disk.commitFile, hin]
-  rfl
+/-- … and `add_if_new` never creates a colliding ref: it raises or returns `False`, and no ref changes -/
+theorem collision_refused_add_if_new (d : Disk) (hfs : DirsClosed d) (n : Name) (v : Val) (names : List Name) (r : Name)
+    (hf : follow d.readRef n = .ok (names, none)) (hl : names.getLast? = some r) (hc : Collides d r) :
+    (d.addIfNew n v).1 ≠ .ok true ∧ (d.addIfNew n v).2.readRef = d.readRef := by
+  unfold Disk.addIfNew
+  by_cases hv : validRefValue v = true
+  · simp only [hv, Bool.not_true, Bool.false_eq_true, if_false, hf, Option.isSome_none, hl, Option.getD_some]
+    by_cases hck : checkRefname r = true
+    · simp only [hck, Bool.not_true, Bool.false_eq_true, if_false]
+      rcases write_refused d hfs r hc with h | ⟨h1, h2⟩ | ⟨h1, d1, h2, h3, h4⟩
+      · simp [h]
+      · simp [h1, h2]
+      · simp only [h1, Bool.false_eq_true, if_false, h2, h4]
+        split
+        · exact ⟨by simp, h3⟩
+        · exact ⟨by simp, h3⟩
+    · simp [hck]
+  · simp [hv]
 
-/-- the layout `git pack-refs --all` (or a clone) leaves: `refs/heads/a/b` only in packed-refs, no
-directory `refs/heads/a` -/
-def packedOnlyDescendant : Disk := { emptyDisk with packed := [(b!"refs/heads/a/b", shaA)] }
-
-set_option maxRecDepth 8000 in
-/-- DESIGN §7-F16: with `refs/heads/a/b` only packed, creating `refs/heads/a` succeeds and both exist -/
-theorem packed_descendant_counterexample :
-    (packedOnlyDescendant.setIfEquals b!"refs/heads/a" none shaB).1 = .ok true ∧
-    (packedOnlyDescendant.setIfEquals b!"refs/heads/a" none shaB).2.readRef b!"refs/heads/a" = some shaB ∧
-    (packedOnlyDescendant.setIfEquals b!"refs/heads/a" none shaB).2.readRef b!"refs/heads/a/b" = some shaA := by
-  decide
-
-def packedOnlyAncestor : Disk := { emptyDisk with packed := [(b!"refs/heads/a", shaA)] }
-
-set_option maxRecDepth 8000 in
-/-- only `set_if_equals` probes packed ancestors: `add_if_new` and `set_symbolic_ref` create
-`refs/heads/a/b` below the packed-only `refs/heads/a` -/
-theorem packed_ancestor_counterexample :
-    (packedOnlyAncestor.setIfEquals b!"refs/heads/a/b" none shaB).1 = .error .os ∧
-    (packedOnlyAncestor.addIfNew b!"refs/heads/a/b" shaB).1 = .ok true ∧
-    (packedOnlyAncestor.addIfNew b!"refs/heads/a/b" shaB).2.readRef b!"refs/heads/a/b" = some shaB ∧
-    (packedOnlyAncestor.addIfNew b!"refs/heads/a/b" shaB).2.readRef b!"refs/heads/a" = some shaA := by
-  decide
-
-set_option maxRecDepth 8000 in
-/-- a failed compare-and-swap on `a/b` leaves the empty directory `a` behind, and the unconditional
-creation of `a` — which the map spec performs — then fails: `StepOk` is not an invariant of the code -/
-theorem stale_directory_counterexample :
-    let ops : List MOp := [.setIfEquals b!"refs/heads/a/b" (some shaA) shaB, .setIfEquals b!"refs/heads/a" none shaB]
-    (emptyDisk.run ops).1 = [.ok (some false), .error .os] ∧
-    (Spec.run emptyDisk.readRef ops).1 = [.ok (some false), .ok (some true)] := by
-  decide
-
-set_option maxRecDepth 8000 in
-/-- `set_symbolic_ref` does not create parent directories; and it cannot re-point a name that is part of
-a symref loop (it follows the old value first) -/
-theorem set_symbolic_ref_counterexample :
-    (emptyDisk.setSymbolicRef b!"refs/remotes/o/m" b!"refs/heads/m").1 = .error .os ∧
-    (let d : Disk := { emptyDisk with files := [(b!"refs/heads/s", b!"ref: refs/heads/t"),
-                                                 (b!"refs/heads/t", b!"ref: refs/heads/s")] }
-     (d.setSymbolicRef b!"refs/heads/s" b!"refs/heads/m").1 = .error .symrefLoop ∧
-     (Dict.setSymbolicRef d.files b!"refs/heads/s" b!"refs/heads/m").1 = .error .symrefLoop) := by
-  decide
-
-set_option maxRecDepth 8000 in
-/-- `pack_refs(all=True)` is not a stuttering step when a symbolic ref lives under `refs/`: the symref is
-replaced by the sha it resolves to; with a symref loop it raises -/
-theorem pack_refs_symref_counterexample :
-    (let d : Disk := { emptyDisk with files := [(b!"refs/heads/a", shaA), (b!"refs/heads/s", b!"ref: refs/heads/a")] }
-     d.readRef b!"refs/heads/s" = some b!"ref: refs/heads/a" ∧
-     (d.packRefs true).1 = .ok () ∧ (d.packRefs true).2.readRef b!"refs/heads/s" = some shaA) ∧
-    (let d : Disk := { emptyDisk with files := [(b!"refs/heads/s", b!"ref: refs/heads/t"),
-                                                 (b!"refs/heads/t", b!"ref: refs/heads/s")] }
-     (d.packRefs true).1 = .error .symrefLoop) := by
-  decide
-
-set_option maxRecDepth 8000 in
-/-- `add_if_new` through a dangling symref consults packed-refs under the symref's own name -/
-theorem add_if_new_packed_name_counterexample :
-    let d : Disk := { emptyDisk with files := [(b!"refs/heads/s", b!"ref: refs/heads/t")],
-                                     packed := [(b!"refs/heads/s", shaA)] }
-    (d.addIfNew b!"refs/heads/s" shaB).1 = .ok false ∧
-    (Spec.addIfNew d.readRef b!"refs/heads/s" shaB).1 = .ok true := by
-  decide
-
-set_option maxRecDepth 8000 in
-/-- `get_peeled` answers from the packed entry although a loose ref overrides it, and `add_packed_refs`
-keeps the old peeled line when the value changes -/
-theorem get_peeled_counterexample :
-    let d : Disk := { emptyDisk with files := [(b!"refs/tags/v", shaB)],
-                                     packed := [(b!"refs/tags/v", b!"cccccccccccccccccccccccccccccccccccccccc")],
-                                     peeled := [(b!"refs/tags/v", shaA)] }
-    d.readRef b!"refs/tags/v" = some shaB ∧ d.getPeeled b!"refs/tags/v" = .ok (some shaA) ∧
-    (d.packRefs true).2.packed.get b!"refs/tags/v" = some shaB ∧
-    (d.packRefs true).2.getPeeled b!"refs/tags/v" = .ok (some shaA) := by
-  decide
 
 /-! ## 5. DictRefsContainer ≡ the map spec (when not writing through a symref) -/
 
@@ -595,14 +581,11 @@ theorem dict_add_if_new_spec (m : Map) (hwf : DictWF m) (name : Name) (v : Val)
     simp only [hf, Option.isSome_some, if_true]
     exact ⟨trivial, dict_readRef_eq m hwf⟩
 
-theorem dict_set_symbolic_ref_spec (m : Map) (hwf : DictWF m) (name other : Name)
-    (hnoloop : ∃ r, follow (Dict.readRef m) name = .ok r) :   -- as coded: the old value is followed first
+theorem dict_set_symbolic_ref_spec (m : Map) (hwf : DictWF m) (name other : Name) :
     (Dict.setSymbolicRef m name other).1 = .ok () ∧
     Dict.readRef (Dict.setSymbolicRef m name other).2 = Spec.setSymbolicRef (Dict.readRef m) name other := by
-  obtain ⟨r, hr⟩ := hnoloop
   unfold Dict.setSymbolicRef Spec.setSymbolicRef
-  simp only [hr]
-  exact ⟨trivial, dict_readRef_set m hwf name _ (by simp [symref])⟩
+  exact ⟨rfl, dict_readRef_set m hwf name _ (by simp [symref])⟩
 
 /-- Dict and Disk agree: from states with the same abstraction, an update that does not write through a
 symref and meets no collision returns the same value on both and keeps the abstractions equal -/
@@ -610,7 +593,7 @@ theorem dict_equiv_disk (m : Map) (hwf : DictWF m) (d : Disk) (hdwf : d.WF) (hab
     (name : Name) (old : Option Val) (new : Val)
     (hname : checkRefname name = true) (hval : validRefValue new = true)
     (hdirect : ∀ c, m.get name = some c → ¬ symref.isPrefixOf c = true)
-    (hclear : d.PathClear name) :
+    (hclear : d.NoCollision name) :
     (Dict.setIfEquals m name old new).1 = (d.setIfEquals name old new).1 ∧
     Dict.readRef (Dict.setIfEquals m name old new).2 = (d.setIfEquals name old new).2.readRef := by
   have hreal : realname d.readRef name = name := by
@@ -622,59 +605,105 @@ theorem dict_equiv_disk (m : Map) (hwf : DictWF m) (d : Disk) (hdwf : d.WF) (hab
   rw [a1, a2, b1, b2, habs]
   exact ⟨rfl, rfl⟩
 
-/-! ## 6. reftable: conditional updates agree with the spec; `None`/`ZERO_SHA` do not (DESIGN §7-F17) -/
 
-theorem reftable_set_if_equals_partial (m : Map) (name : Name) (o new : Val)
-    (ho : o ≠ []) (hz : o ≠ zeroSha)
-    (hdirect : ∀ c, m.get name = some c → ¬ symref.isPrefixOf c = true) :
-    (Reftable.setIfEquals m name (some o) new).1 = .ok (Spec.setIfEquals m.get name (some o) new).1 ∧
-    ((Reftable.setIfEquals m name (some o) new).2).get = (Spec.setIfEquals m.get name (some o) new).2 := by
+/-! ## 6. reftable ≡ the map spec, `None` and `ZERO_SHA` included (DESIGN §7-F17 repaired) -/
+
+theorem reftable_matchesOld_eq_casOk (cur old : Option Val) (hz : cur ≠ some zeroSha) :
+    Reftable.matchesOld cur old = casOk cur old := by
+  unfold Reftable.matchesOld casOk
+  cases old with
+  | none => rfl
+  | some o =>
+    simp only
+    by_cases ho : o = zeroSha
+    · subst ho
+      cases cur with
+      | none => simp
+      | some c =>
+        have : c ≠ zeroSha := fun h => hz (by rw [h])
+        simp [this]
+    · cases cur with
+      | none =>
+        have : (zeroSha == o) = false := by rw [beq_eq_false_iff_ne]; exact fun h => ho h.symm
+        simp [ho, this]
+      | some c => simp [ho]
+
+/-- for every old value — a sha, `None` (unconditional) or `ZERO_SHA` (must be absent) — when `name` is
+not a symbolic ref (reftable compares the raw value and does not write through symrefs) and does not hold
+the all-zero id -/
+theorem reftable_set_if_equals_spec (m : Map) (name : Name) (old : Option Val) (new : Val)
+    (hdirect : ∀ c, m.get name = some c → ¬ symref.isPrefixOf c = true) (hz : m.get name ≠ some zeroSha) :
+    (Reftable.setIfEquals m name old new).1 = .ok (Spec.setIfEquals m.get name old new).1 ∧
+    ((Reftable.setIfEquals m name old new).2).get = (Spec.setIfEquals m.get name old new).2 := by
   have hreal : realname m.get name = name := realname_direct _ _ hdirect
-  unfold Reftable.setIfEquals Spec.setIfEquals Reftable.oldBytes
-  have he : o.isEmpty = false := by cases o with | nil => exact absurd rfl ho | cons _ _ => rfl
-  simp only [hreal, he, Bool.false_eq_true, if_false, casOk]
-  cases hg : m.get name with
-  | none =>
-    have : (zeroSha == o) = false := by
-      rw [beq_eq_false_iff_ne]; exact fun h => hz h.symm
-    simp [this]
-  | some c =>
-    by_cases hco : c = o
-    · subst hco
-      simp only [bne_self_eq_false, Bool.false_eq_true, if_false, beq_self_eq_true, if_true]
-      refine ⟨trivial, ?_⟩
-      funext n
-      unfold RefMap.update
-      by_cases hn : n = name
-      · subst hn; simp [Map.get_set_eq]
-      · simp [Map.get_set_ne _ _ _ _ hn, hn]
-    · have h1 : (some c != some o) = true := by simp [hco]
-      have h2 : (c == o) = false := by simp [hco]
-      simp [h1, h2]
+  unfold Reftable.setIfEquals Spec.setIfEquals
+  simp only [hreal, reftable_matchesOld_eq_casOk _ old hz]
+  by_cases hc : casOk (m.get name) old = true
+  · simp only [hc, Bool.not_true, Bool.false_eq_true, if_false, if_true]
+    refine ⟨trivial, ?_⟩
+    funext n
+    unfold RefMap.update
+    by_cases hn : n = name
+    · subst hn; simp [Map.get_set_eq]
+    · simp [Map.get_set_ne _ _ _ _ hn, hn]
+  · simp only [hc, Bool.not_false, if_true, Bool.false_eq_true, if_false]
+    exact ⟨trivial, trivial⟩
+
+theorem reftable_remove_if_equals_spec (m : Map) (name : Name) (old : Option Val)
+    (hz : m.get name ≠ some zeroSha) :
+    (Reftable.removeIfEquals m name old).1 = .ok (Spec.removeIfEquals m.get name old).1 ∧
+    ((Reftable.removeIfEquals m name old).2).get = (Spec.removeIfEquals m.get name old).2 := by
+  unfold Reftable.removeIfEquals Spec.removeIfEquals
+  simp only [reftable_matchesOld_eq_casOk _ old hz]
+  by_cases hc : casOk (m.get name) old = true
+  · simp only [hc, Bool.not_true, Bool.false_eq_true, if_false, if_true]
+    refine ⟨trivial, ?_⟩
+    funext n
+    unfold RefMap.update
+    by_cases hn : n = name
+    · subst hn; simp [Map.get_del_eq]
+    · simp [Map.get_del_ne _ _ _ hn, hn]
+  · simp only [hc, Bool.not_false, if_true, Bool.false_eq_true, if_false]
+    exact ⟨trivial, trivial⟩
 
 set_option maxRecDepth 8000 in
-theorem reftable_unconditional_counterexample :
+example :
     let m : Map := [(b!"refs/heads/m", shaA)]
-    Reftable.setIfEquals m b!"refs/heads/m" none shaB = (.ok false, m) ∧
-    (Spec.setIfEquals m.get b!"refs/heads/m" none shaB).1 = true ∧
-    Reftable.removeIfEquals m b!"refs/heads/m" none = (.ok false, m) ∧
-    (Spec.removeIfEquals m.get b!"refs/heads/m" none).1 = true ∧
-    Reftable.setIfEquals [] b!"refs/heads/m" (some zeroSha) shaA = (.ok false, []) ∧
-    (Spec.setIfEquals (Map.get []) b!"refs/heads/m" (some zeroSha) shaA).1 = true := by
-  decide
+    Reftable.setIfEquals m b!"refs/heads/m" none shaB = (.ok true, [(b!"refs/heads/m", shaB)]) ∧
+    Reftable.removeIfEquals m b!"refs/heads/m" none = (.ok true, []) ∧
+    (Reftable.setIfEquals [] b!"refs/heads/m" (some zeroSha) shaA).1 = .ok true := by decide
 
-/-! ## 7. NamespacedRefsContainer: a symref set through the namespace does not resolve through it -/
+/-! ## 7. NamespacedRefsContainer: a symref set through the namespace resolves through it -/
 
 set_option maxRecDepth 8000 in
-theorem namespaced_symref_counterexample :
+theorem namespaced_symref_resolves :
     let o := namespaced dictOps (nsPrefix b!"foo")
     let m0 : Map := [(b!"refs/namespaces/foo/refs/heads/a", shaA)]
-    o.getItem m0 b!"refs/heads/a" = .ok shaA ∧
-    (o.setSymbolicRef m0 b!"refs/heads/s" b!"refs/heads/a").1 = .ok () ∧
-    o.getItem (o.setSymbolicRef m0 b!"refs/heads/s" b!"refs/heads/a").2 b!"refs/heads/s" = .error .key ∧
-    o.readRef (o.setSymbolicRef m0 b!"refs/heads/s" b!"refs/heads/a").2 b!"refs/heads/s"
-      = some b!"ref: refs/namespaces/foo/refs/heads/a" := by
+    let m1 := (o.setSymbolicRef m0 b!"refs/heads/s" b!"refs/heads/a").2
+    o.getItem m1 b!"refs/heads/s" = .ok shaA ∧
+    o.readRef m1 b!"refs/heads/s" = some b!"ref: refs/heads/a" ∧
+    m1.get b!"refs/namespaces/foo/refs/heads/s" = some b!"ref: refs/namespaces/foo/refs/heads/a" ∧
+    o.getSymrefs m1 = [(b!"refs/heads/s", b!"refs/heads/a")] := by
   decide
+
+/-! ## 7b. peeled values: the packed entry is not consulted under a loose ref, and re-packing drops a
+peeled value that belongs to an old target -/
+
+theorem get_peeled_loose_override (d : Disk) (n : Name) (h : (d.readLoose n).isSome = true) :
+    d.getPeeled n = .ok none := by
+  unfold Disk.getPeeled
+  split
+  · rfl
+  · simp [h]
+
+set_option maxRecDepth 8000 in
+example :
+    let d : Disk := { emptyDisk with files := [(b!"refs/tags/v", shaB)], packed := [(b!"refs/tags/v", shaC)],
+                                     peeled := [(b!"refs/tags/v", shaA)] }
+    d.getPeeled b!"refs/tags/v" = .ok none ∧
+    (d.packRefs true).2.packed.get b!"refs/tags/v" = some shaB ∧
+    (d.packRefs true).2.peeled.get b!"refs/tags/v" = none := by decide
+
 
 /-! ## 8. packed-refs: what `write_packed_refs` writes, `get_packed_refs` reads back — peeled lines included -/
 
@@ -705,89 +734,150 @@ example : ∀ e ∈ [({ name := b!"refs/tags/v", sha := shaA, peeled := some sha
   · exact ⟨by decide, by decide, fun p hp => by cases hp⟩
 
 
-/-! ## 9. the statement over a universe of non-colliding names: true for the symref-free fragment
-(packing included), false in general -/
 
-/-- values written by an operation are hex shas -/
-def opValuesOk : MOp → Prop
-  | .setIfEquals _ _ v => validHexSha v = true
-  | .addIfNew _ v => validHexSha v = true
-  | _ => True
-
-/-- **The full statement** of the refinement, as the property words it: starting from an empty
-repository, for every universe of valid, pairwise non-colliding names and every sequence of operations
-over it (values = hex shas), the files backend returns what the map spec returns and ends in a state
-whose abstraction is the spec's map. -/
-def disk_refines_map_Statement : Prop :=
-  ∀ (U : List Name), (∀ n ∈ U, checkRefname n = true) → NonColliding U →
-  ∀ (ops : List MOp), (∀ op ∈ ops, (∀ n ∈ op.names, n ∈ U) ∧ opValuesOk op) →
-    (emptyDisk.run ops).1 = (Spec.run emptyDisk.readRef ops).1 ∧
-    (emptyDisk.run ops).2.readRef = (Spec.run emptyDisk.readRef ops).2
-
-set_option maxRecDepth 8000 in
-/-- The full statement is **false for the code as it is**: `set_symbolic_ref` into a directory that
-does not exist yet fails with an `OSError` where the spec succeeds (and, independently, `pack_refs`
-turns a symref into a plain ref, see `pack_refs_symref_counterexample`). -/
-theorem disk_refines_map_full_counterexample : ¬ disk_refines_map_Statement := by
-  intro h
-  have := h [b!"refs/remotes/o/m", b!"refs/heads/m"] (by decide) (by unfold NonColliding; decide)
-    [.setSymbolicRef b!"refs/remotes/o/m" b!"refs/heads/m"]
-    (by intro op hop; simp only [List.mem_singleton] at hop; subst hop; exact ⟨by decide, trivial⟩)
-  exact absurd this.1 (by decide)
-
-/-- **For every operation sequence over non-colliding names** — in the fragment without symbolic refs
-(conditional and unconditional writes, creations, conditional and unconditional deletes, `pack_refs`
-with either flag, re-opening; any interleaving, any length; refs end up loose, packed or both) — the
-full statement holds with no side condition: from any state satisfying the invariant `Disk.Inv U` (only
-names of `U` stored, hex-sha values, only directories on the way to names of `U`; in particular the
-empty repository), every step returns what the map spec returns, `pack_refs` and re-opening are
-stuttering steps, and the final abstraction is the spec's final map. -/
-theorem disk_refines_map_direct (U : List Name) (hU : ∀ n ∈ U, checkRefname n = true) (hnc : NonColliding U) :
-    ∀ (ops : List MOp) (d : Disk), d.Inv U → (∀ op ∈ ops, op.Direct ∧ ∀ n ∈ op.names, n ∈ U) →
-    (d.run ops).1 = (Spec.run d.readRef ops).1 ∧ (d.run ops).2.readRef = (Spec.run d.readRef ops).2 := by
-  intro ops d hi hops
-  have hall : ∀ (ops : List MOp) (d : Disk), d.Inv U → (∀ op ∈ ops, op.Direct ∧ ∀ n ∈ op.names, n ∈ U) →
-      d.AllOk ops := by
-    intro ops
-    induction ops with
-    | nil => intro _ _ _; trivial
-    | cons op ops ih =>
-      intro d hi hops
-      obtain ⟨hd, hn⟩ := hops op (by simp)
-      exact ⟨hi.stepOk hU hnc op hd hn, ih _ (hi.step op hd hn) (fun o ho => hops o (by simp [ho]))⟩
-  exact disk_refines_map_partial ops d hi.wf (hall ops d hi hops)
+/-! ## 9. the full statement: every operation sequence over a universe of non-colliding names -/
 
 theorem emptyDisk_inv (U : List Name) : emptyDisk.Inv U := by
   refine ⟨?_, ?_, fun _ hx => Or.inl hx⟩
   · intro k v h; simp [emptyDisk, Map.get] at h
   · intro k v h; simp [emptyDisk, Map.get] at h
 
-/-- non-vacuity: a universe with names at different depths (none on the way to another) -/
-example : (∀ n ∈ [b!"refs/heads/a", b!"refs/heads/d/e/f", b!"refs/remotes/o/m", b!"refs/tags/v", b!"HEAD"],
-      checkRefname n = true) ∧
-    NonColliding [b!"refs/heads/a", b!"refs/heads/d/e/f", b!"refs/remotes/o/m", b!"refs/tags/v", b!"HEAD"] := by
-  constructor
-  · decide
-  · unfold NonColliding; decide
+/-- **The full statement**, as the property words it: for every universe of valid, pairwise
+non-colliding names and every sequence of operations over it — conditional and unconditional writes
+(through symbolic refs or not), creations, conditional and unconditional deletes, `set_symbolic_ref`
+(chains, loops, dangling targets, HEAD attached or detached), `pack_refs` with either flag, re-opening;
+any interleaving, any length — the files backend, started from the empty repository, returns what the map
+spec returns at every step and ends in a state whose abstraction (`read_ref`) is the spec's final map. -/
+def disk_refines_map_Statement : Prop :=
+  ∀ (U : List Name), (∀ n ∈ U, checkRefname n = true) → NonColliding U →
+  ∀ (ops : List MOp), (∀ op ∈ ops, (∀ n ∈ op.names, n ∈ U) ∧ op.ValuesOk) →
+    (emptyDisk.run ops).1 = (Spec.run emptyDisk.readRef ops).1 ∧
+    (emptyDisk.run ops).2.readRef = (Spec.run emptyDisk.readRef ops).2
+
+/-- the same from any state satisfying the invariant `Disk.Inv U` (only names of `U` stored — loose,
+packed or both, hex shas or symrefs to names of `U` — and only directories on the way to names of `U`) -/
+theorem disk_refines_map_inv (U : List Name) (hU : ∀ n ∈ U, checkRefname n = true) (hnc : NonColliding U) :
+    ∀ (ops : List MOp) (d : Disk), d.Inv U → (∀ op ∈ ops, (∀ n ∈ op.names, n ∈ U) ∧ op.ValuesOk) →
+    (d.run ops).1 = (Spec.run d.readRef ops).1 ∧ (d.run ops).2.readRef = (Spec.run d.readRef ops).2 := by
+  intro ops d hi hops
+  have hall : ∀ (ops : List MOp) (d : Disk), d.Inv U → (∀ op ∈ ops, (∀ n ∈ op.names, n ∈ U) ∧ op.ValuesOk) →
+      d.AllOk ops := by
+    intro ops
+    induction ops with
+    | nil => intro _ _ _; trivial
+    | cons op ops ih =>
+      intro d hi hops
+      obtain ⟨hn, hv⟩ := hops op (by simp)
+      exact ⟨hi.stepOk hU hnc op hv hn, ih _ (hi.step op hv hn) (fun o ho => hops o (by simp [ho]))⟩
+  exact disk_refines_map_guarded ops d hi.wf (hall ops d hi hops)
+
+/-- **The full statement holds** for the code after the fix series (it was false before:
+`disk_refines_map_regression`). -/
+theorem disk_refines_map : disk_refines_map_Statement :=
+  fun U hU hnc ops hops => disk_refines_map_inv U hU hnc ops emptyDisk (emptyDisk_inv U) hops
+
+/-! ## 10. regression witnesses: what the code did before the fix series
+
+Each theorem is `decide`d on Model/RefsOld.lean, the model of dulwich at bb5afda (before the C16 fix
+series), and documents one repaired defect; the corresponding positive statement about the current
+model is named in the doc-comment. -/
+
+def oldEmptyDisk : RefsOld.Disk :=
+  { files := [], dirs := [b!"refs", b!"refs/heads", b!"refs/tags"], packed := [], peeled := [] }
 
 set_option maxRecDepth 8000 in
-/-- non-vacuity of `disk_refines_map_direct`: a sequence in the fragment that leaves `refs/heads/a`
-packed with a newer loose value on top, then deletes it (loose and packed), while `refs/tags/v` stays
-packed only -/
-example :
-    let U : List Name := [b!"refs/heads/a", b!"refs/heads/d/e/f", b!"refs/tags/v"]
-    let ops : List MOp := [.setIfEquals b!"refs/heads/a" none shaA, .addIfNew b!"refs/tags/v" shaB, .packRefs true,
-      .setIfEquals b!"refs/heads/a" (some shaA) shaB, .reopen, .packRefs false,
-      .removeIfEquals b!"refs/heads/a" (some shaB), .addIfNew b!"refs/heads/d/e/f" shaA]
-    (∀ op ∈ ops, op.Direct ∧ ∀ n ∈ op.names, n ∈ U) ∧
-    (emptyDisk.run ops).1 = [.ok (some true), .ok (some true), .ok none, .ok (some true), .ok none, .ok none,
-      .ok (some true), .ok (some true)] ∧
-    (emptyDisk.run ops).2.readRef b!"refs/heads/a" = none ∧
-    (emptyDisk.run ops).2.packed.get b!"refs/tags/v" = some shaB := by
-  refine ⟨?_, by decide, by decide, by decide⟩
-  intro op hop
-  simp only [List.mem_cons, List.not_mem_nil, or_false] at hop
-  rcases hop with rfl | rfl | rfl | rfl | rfl | rfl | rfl | rfl <;>
-    exact ⟨by first | trivial | (show validHexSha _ = true; decide), by decide⟩
+/-- DESIGN §7-F16 (fixed, PENDING-1): with `refs/heads/a/b` only packed, creating `refs/heads/a` succeeded and
+both existed; with `refs/heads/a` only packed, `add_if_new` created `refs/heads/a/b`.
+Now: `collision_refused_set_if_equals`, `collision_refused_add_if_new`, `collision_refused_set_symbolic_ref`. -/
+theorem packed_collision_regression :
+    (let d : RefsOld.Disk := { oldEmptyDisk with packed := [(b!"refs/heads/a/b", shaA)] }
+     (d.setIfEquals b!"refs/heads/a" none shaB).1 = .ok true ∧
+     (d.setIfEquals b!"refs/heads/a" none shaB).2.readRef b!"refs/heads/a" = some shaB ∧
+     (d.setIfEquals b!"refs/heads/a" none shaB).2.readRef b!"refs/heads/a/b" = some shaA) ∧
+    (let d : RefsOld.Disk := { oldEmptyDisk with packed := [(b!"refs/heads/a", shaA)] }
+     (d.setIfEquals b!"refs/heads/a/b" none shaB).1 = .error .os ∧
+     (d.addIfNew b!"refs/heads/a/b" shaB).1 = .ok true ∧
+     (d.addIfNew b!"refs/heads/a/b" shaB).2.readRef b!"refs/heads/a/b" = some shaB ∧
+     (d.addIfNew b!"refs/heads/a/b" shaB).2.readRef b!"refs/heads/a" = some shaA) := by
+  decide
+
+set_option maxRecDepth 8000 in
+/-- (fixed, PENDING-3) a failed compare-and-swap on `a/b` left the empty directory `a` behind, and the
+unconditional creation of `a` then failed.  Now `NoCollision` does not mention directories. -/
+theorem stale_directory_regression :
+    let r1 := oldEmptyDisk.setIfEquals b!"refs/heads/a/b" (some shaA) shaB
+    r1.1 = .ok false ∧ (r1.2.setIfEquals b!"refs/heads/a" none shaB).1 = .error .os ∧
+    (let r1' := emptyDisk.setIfEquals b!"refs/heads/a/b" (some shaA) shaB
+     r1'.1 = .ok false ∧ (r1'.2.setIfEquals b!"refs/heads/a" none shaB).1 = .ok true) := by
+  decide
+
+set_option maxRecDepth 8000 in
+/-- (fixed, PENDING-2 and PENDING-4) `set_symbolic_ref` did not create parent directories, and could not
+re-point a name inside a symref loop (Disk and Dict).  Now: `disk_set_symbolic_ref_refines`,
+`dict_set_symbolic_ref_spec` without such hypotheses. -/
+theorem set_symbolic_ref_regression :
+    (oldEmptyDisk.setSymbolicRef b!"refs/remotes/o/m" b!"refs/heads/m").1 = .error .os ∧
+    (emptyDisk.setSymbolicRef b!"refs/remotes/o/m" b!"refs/heads/m").1 = .ok () ∧
+    (let d : RefsOld.Disk := { oldEmptyDisk with files := [(b!"refs/heads/s", b!"ref: refs/heads/t"),
+                                                           (b!"refs/heads/t", b!"ref: refs/heads/s")] }
+     (d.setSymbolicRef b!"refs/heads/s" b!"refs/heads/m").1 = .error .symrefLoop ∧
+     (RefsOld.Dict.setSymbolicRef d.files b!"refs/heads/s" b!"refs/heads/m").1 = .error .symrefLoop) := by
+  decide
+
+set_option maxRecDepth 8000 in
+/-- (fixed, PENDING-5) `pack_refs(all=True)` replaced a symbolic ref under `refs/` by the sha it resolved
+to, and raised on a symref loop.  Now: `pack_refs_stutter`, unconditional. -/
+theorem pack_refs_symref_regression :
+    (let d : RefsOld.Disk := { oldEmptyDisk with files := [(b!"refs/heads/a", shaA), (b!"refs/heads/s", b!"ref: refs/heads/a")] }
+     d.readRef b!"refs/heads/s" = some b!"ref: refs/heads/a" ∧
+     (d.packRefs true).1 = .ok () ∧ (d.packRefs true).2.readRef b!"refs/heads/s" = some shaA) ∧
+    (let d : RefsOld.Disk := { oldEmptyDisk with files := [(b!"refs/heads/s", b!"ref: refs/heads/t"),
+                                                           (b!"refs/heads/t", b!"ref: refs/heads/s")] }
+     (d.packRefs true).1 = .error .symrefLoop) := by
+  decide
+
+set_option maxRecDepth 8000 in
+/-- (fixed, PENDING-8) `add_if_new` through a dangling symref consulted packed-refs under the symref's own
+name.  Now: `disk_add_if_new_refines` without the extra hypothesis. -/
+theorem add_if_new_packed_name_regression :
+    let d : RefsOld.Disk := { oldEmptyDisk with files := [(b!"refs/heads/s", b!"ref: refs/heads/t")],
+                                                packed := [(b!"refs/heads/s", shaA)] }
+    (d.addIfNew b!"refs/heads/s" shaB).1 = .ok false ∧
+    (RefsOld.Spec.addIfNew d.readRef b!"refs/heads/s" shaB).1 = .ok true := by
+  decide
+
+set_option maxRecDepth 8000 in
+/-- (fixed, PENDING-6 and PENDING-7) `get_peeled` answered from the packed entry under a loose override,
+and re-packing kept the old peeled line.  Now: `get_peeled_loose_override` and the example after it. -/
+theorem get_peeled_regression :
+    let d : RefsOld.Disk := { oldEmptyDisk with files := [(b!"refs/tags/v", shaB)],
+                                                packed := [(b!"refs/tags/v", shaC)],
+                                                peeled := [(b!"refs/tags/v", shaA)] }
+    d.readRef b!"refs/tags/v" = some shaB ∧ d.getPeeled b!"refs/tags/v" = .ok (some shaA) ∧
+    (d.packRefs true).2.packed.get b!"refs/tags/v" = some shaB ∧
+    (d.packRefs true).2.getPeeled b!"refs/tags/v" = .ok (some shaA) := by
+  decide
+
+set_option maxRecDepth 8000 in
+/-- DESIGN §7-F17 (fixed, PENDING-9): reftable dropped unconditional overwrites and deletes, and did not
+read `ZERO_SHA` as "absent".  Now: `reftable_set_if_equals_spec`, `reftable_remove_if_equals_spec`. -/
+theorem reftable_unconditional_regression :
+    let m : RefsOld.Map := [(b!"refs/heads/m", shaA)]
+    RefsOld.Reftable.setIfEquals m b!"refs/heads/m" none shaB = (.ok false, m) ∧
+    RefsOld.Reftable.removeIfEquals m b!"refs/heads/m" none = (.ok false, m) ∧
+    RefsOld.Reftable.setIfEquals [] b!"refs/heads/m" (some zeroSha) shaA = (.ok false, []) := by
+  decide
+
+set_option maxRecDepth 8000 in
+/-- (fixed, PENDING-10) a symref set through a `NamespacedRefsContainer` did not resolve through it.
+Now: `namespaced_symref_resolves`. -/
+theorem namespaced_symref_regression :
+    let o := RefsOld.namespaced RefsOld.dictOps (RefsOld.nsPrefix b!"foo")
+    let m0 : RefsOld.Map := [(b!"refs/namespaces/foo/refs/heads/a", shaA)]
+    o.getItem (o.setSymbolicRef m0 b!"refs/heads/s" b!"refs/heads/a").2 b!"refs/heads/s" = .error .key ∧
+    o.readRef (o.setSymbolicRef m0 b!"refs/heads/s" b!"refs/heads/a").2 b!"refs/heads/s"
+      = some b!"ref: refs/namespaces/foo/refs/heads/a" := by
+  decide
+
 
 end Dulwich.Props.C16
